@@ -386,6 +386,21 @@ def rule_reparent(ctx) -> RuleResult:
     res.inst("Workspace.remove_children -> _io_call(H5Writer.remove_child, child.uid, <kind>, parent)", ok=ok4)
     if not ok4:
         res.find("Workspace", "remove_children", "no H5Writer.remove_child call", wr.where, "the old parent's link stays on file")
+    # ... and unlinks THAT child: the uid and the name of the link container both derive from the same element of the list
+    from ..normalize import expanded as _expanded
+
+    wrv = ctx.view(wr)
+    for c in ast.walk(wrv.node):
+        if isinstance(c, ast.Call) and isinstance(c.func, ast.Attribute) and c.func.attr == "_io_call" and len(c.args) >= 3 and unparse(c.args[0]) == "H5Writer.remove_child":
+            uid_x, kind_x = _expanded(c.args[1], wrv.node), _expanded(c.args[2], wrv.node)
+            subject = uid_x.value.id if isinstance(uid_x, ast.Attribute) and uid_x.attr == "uid" and isinstance(uid_x.value, ast.Name) else None
+            bound = {y.id for x in ast.walk(kind_x) if isinstance(x, ast.comprehension) for y in ast.walk(x.target) if isinstance(y, ast.Name)}
+            ok6 = subject is not None and subject not in bound and any(isinstance(x, ast.Name) and x.id == subject for x in ast.walk(kind_x))
+            res.inst("Workspace.remove_children: remove_child(<child>.uid, <link container of that same child>, parent)", nontrivial=True, ok=ok6)
+            if not ok6:
+                res.find("Workspace", "remove_children", "the link container is not derived from the child whose uid is unlinked", f"{wr.module.relpath}:{c.lineno}",
+                         "a child of another kind than the one the container name was computed from keeps its link under the parent while its node leaves the "
+                         "flat container: the parent's entry no longer designates a member of the flat container")
     from ..h5den import Den
 
     rc = ctx.view(p.func("H5Writer.remove_child"))
@@ -414,15 +429,30 @@ def rule_pgmember(ctx) -> RuleResult:
     )
     p = ctx.p
     PG = p.cls("PropertyGroup")
+    # Provenance, not text: on the normalised body (private helpers expanded) a forward dataflow tracks which locals may hold a value
+    # that was NOT shown to belong to the parent's children; a value is shown to belong by coming out of <parent>.get_entity /
+    # get_data (they search the receiver's children only), by iterating <parent>.children, or by the true edge of a membership test
+    # against them.  Every value that reaches self._properties must be verified on every path.
+    from ._c02_flow import Members
+
     members = list(PG.methods.values()) + [f for pr in PG.props.values() for f in (pr.setter,) if f is not None]
+    self_calls = lambda node: {c.func.attr for c in ast.walk(node) if isinstance(c, ast.Call) and isinstance(c.func, ast.Attribute)  # noqa: E731
+                               and isinstance(c.func.value, ast.Name) and c.func.value.id in ("self", "cls")}
+    pviews = {id(f): ctx.view(f) for f in members}
+    called = set().union(*[self_calls(f.node) for f in members]) if members else set()
+    unexpanded = set().union(*[self_calls(pv.node) for pv in pviews.values()]) if members else set()
     for fn in members:
         if fn.name == "__init__":
             continue
-        stores = [a for a in ast.walk(fn.node) if isinstance(a, ast.Assign) and any(unparse(t) == "self._properties" for t in a.targets)]
-        for a in stores:
-            txt = unparse(fn.node)
-            checked = ("self.parent.children" in txt) or ("self.parent.get_entity(" in txt) or ("parent.get_data(" in txt)
-            res.inst(f"{fn.qualname}:{a.lineno} stores _properties; membership test against the parent's children: {checked}", nontrivial=True, ok=checked)
+        if fn.name.startswith("_") and not fn.name.startswith("__") and fn.name in called and fn.name not in unexpanded:
+            continue  # a private helper expanded into each of its callers: decided there, where the provenance of its arguments is known
+        v = pviews[id(fn)]
+        if not any(isinstance(x, ast.Attribute) and x.attr == "_properties" and isinstance(x.ctx, ast.Store) for x in ast.walk(v.node)) and not any(
+                isinstance(c, ast.Call) and isinstance(c.func, ast.Attribute) and unparse(c.func.value) == "self._properties" for c in ast.walk(v.node)):
+            continue
+        for a, unverified in Members(v).stores("_properties"):
+            checked = not unverified
+            res.inst(f"{fn.qualname}:{a.lineno} stores _properties; every stored value was shown to be one of the parent's children: {checked}", nontrivial=True, ok=checked)
             if not checked:
                 res.find("PropertyGroup", fn.prop or fn.name, "stores _properties without a membership test against parent.children", f"{fn.module.relpath}:{a.lineno}",
                          "a uid that is not a child of the group's object can be listed in 'Properties' and is written to the file")
@@ -547,4 +577,162 @@ def rule_pgmember(ctx) -> RuleResult:
     return res
 
 
-RULES = [rule_spec, rule_link, rule_reparent, rule_pgmember]
+def rule_orphan(ctx) -> RuleResult:
+    res = RuleResult(
+        "C02.ORPHAN",
+        "C02",
+        "a node and its parent entry leave the file together: Workspace.remove_entity deletes the flat node on every path (raises "
+        "included) once the entity was detached from its parent; every remove_children of a container that has its own node reaches the "
+        "file unlink (Workspace.remove_children) for a regular child; Workspace.close sweeps the dead referents of every flat "
+        "container before the final save",
+        floor=5,
+    )
+    from ..normalize import expanded as _expanded
+    from ..normalize import single_assignments as _sa
+    from ._c02_flow import child_truth, reach_pruned, sweeps_ast
+
+    p = ctx.p
+    WS = p.cls("Workspace")
+    conc_roots = [K for K in (p.by_name.get("Concatenated", []) + p.by_name.get("ConcatenatedPropertyGroup", [])) if not K.synthetic]
+    if not conc_roots:
+        raise AnalysisError("anchor classes Concatenated / ConcatenatedPropertyGroup not found")
+    concat_names = {K.name for K in p.classes if not K.synthetic and any(K.is_subclass_of(r) for r in conc_roots)}
+
+    # (a) Workspace.remove_entity(E): detach (remove_recursively -> parent.remove_children([E]) -> file unlink) ... delete of the flat node
+    re0 = WS.methods.get("remove_entity")
+    if re0 is None or len(re0.params) < 2:
+        raise AnalysisError("anchor Workspace.remove_entity(entity) not found")
+    rv = ctx.view(re0)
+    E = re0.params[1]
+    sa = _sa(rv.node)
+    xt = lambda e: unparse(_expanded(e, rv.node, sa))  # noqa: E731
+
+    def detaches(c):
+        if not isinstance(c.func, ast.Attribute) or not c.args:
+            return False
+        if c.func.attr == "remove_recursively":
+            return xt(c.args[0]) == E
+        if c.func.attr == "remove_children" and xt(c.func.value) in (f"{E}.parent", f"{E}._parent"):
+            return any(isinstance(x, ast.Name) and x.id == E for x in ast.walk(_expanded(c.args[0], rv.node, sa)))
+        return False
+
+    def deletes(c):
+        return isinstance(c.func, ast.Attribute) and c.func.attr == "_io_call" and len(c.args) >= 2 and unparse(c.args[0]) == "H5Writer.remove_entity" and xt(c.args[1]) == f"{E}.uid"
+
+    g = CFG(rv.node)
+    det = [n for n in g.nodes if has_call(n, detaches)]
+    if not det:
+        raise AnalysisError("Workspace.remove_entity: the call that detaches the entity from its parent (remove_recursively / parent.remove_children) not found")
+    rr = WS.methods.get("remove_recursively")
+    if rr is not None:
+        rrv = ctx.view(rr)
+        e2 = rr.params[1] if len(rr.params) > 1 else None
+        sa2 = _sa(rrv.node)
+        ok = any(isinstance(c, ast.Call) and isinstance(c.func, ast.Attribute) and c.func.attr == "remove_children" and c.args
+                 and unparse(_expanded(c.func.value, rrv.node, sa2)) in (f"{e2}.parent", f"{e2}._parent")
+                 and any(isinstance(x, ast.Name) and x.id == e2 for x in ast.walk(_expanded(c.args[0], rrv.node, sa2))) for c in ast.walk(rrv.node))
+        res.inst("Workspace.remove_recursively detaches the entity from its parent (<entity>.parent.remove_children([<entity>]))", ok=ok)
+        if not ok:
+            res.find("Workspace", "remove_recursively", "the entity is not detached from its own parent", rr.where,
+                     "the parent's entry stays on file while the node leaves the flat container")
+    regular = {nm: False for nm in concat_names | {"PropertyGroup"}}
+    for d0 in det:
+        esc = reach(g, [m for m, _ in d0.succ], var=E, facts=regular, avoid=lambda n: has_call(n, deletes))
+        ok = g.exit not in esc and g.rexit not in esc
+        res.inst(f"Workspace.remove_entity:{d0.lineno} once detached from its parent, the entity's flat node is deleted on every path (normal or raising)", nontrivial=True, ok=ok)
+        if not ok:
+            why = "a raise" if g.rexit in esc else "a normal path"
+            res.find("Workspace", "remove_entity", f"{why} leaves the function between the detachment from the parent and the deletion of the flat node", re0.where,
+                     "the entity (already unlinked from its parent on file, its children already removed) keeps its node in the flat container: an orphan that "
+                     "no later save re-links, since the parent no longer lists it")
+
+    # (b) every remove_children of a container with its own node reaches the file unlink for a regular child
+    EC = p.cls("EntityContainer")
+    for K in p.subclasses(EC):
+        if K.synthetic or "remove_children" not in K.methods or K.name in concat_names:
+            continue  # concatenated containers have no node, hence no child links, on file
+        f0 = K.methods["remove_children"]
+        if len(f0.params) < 2:
+            raise AnalysisError(f"{K.name}.remove_children: parameter list not recognised")
+        fv = ctx.view(f0)
+        lst = f0.params[1]
+        saK = _sa(fv.node)
+        xk = lambda e, fv=fv, saK=saK: unparse(_expanded(e, fv.node, saK))  # noqa: E731
+
+        def unlinks(c, xk=xk):
+            if not (isinstance(c.func, ast.Attribute) and c.func.attr == "remove_children"):
+                return False
+            r = c.func.value
+            if isinstance(r, ast.Call) and isinstance(r.func, ast.Name) and r.func.id == "super":
+                return True  # the inherited implementation is an instance of this clause itself
+            return xk(r) in ("self.workspace", "self._workspace") and bool(c.args) and xk(c.args[0]) == "self"
+
+        gk = CFG(fv.node)
+        loops = [lp for lp in ast.walk(fv.node) if isinstance(lp, ast.For) and isinstance(lp.target, ast.Name)
+                 and any(isinstance(x, ast.Name) and x.id == lst for x in ast.walk(_expanded(lp.iter, fv.node, saK)))]
+        var = loops[0].target.id if loops else None
+        truth = lambda t, var=var, fv=fv, saK=saK: child_truth(t, var, concat_names, fv.node, saK)  # noqa: E731
+        avoid = lambda n, unlinks=unlinks: has_call(n, unlinks)  # noqa: E731
+        ok = gk.exit not in reach_pruned(gk, [gk.entry], truth, avoid)
+        if not ok:
+            for lp in loops:  # per child: from the top of the body, neither the next iteration nor the exit is reached without the unlink
+                nxt = [n for n in gk.nodes if n.kind == "fornext" and n.stmt is lp]
+                tr = lambda t, lp=lp, fv=fv, saK=saK: child_truth(t, lp.target.id, concat_names, fv.node, saK)  # noqa: E731
+                for nx in nxt:
+                    body = [m for m, lab in nx.succ if lab == "loop"]
+                    esc = reach_pruned(gk, body, tr, avoid)
+                    if body and nx not in esc and gk.exit not in esc:
+                        ok = True
+        res.inst(f"{K.name}.remove_children: a regular child of the container is unlinked on file (Workspace.remove_children / super()) on every path", nontrivial=True, ok=ok)
+        if not ok:
+            res.find(K.name, "remove_children", "a regular (non-concatenated) child is never unlinked from the container on file", f0.where,
+                     "the container also holds regular children (stored in a flat container and hard-linked under its node): removing one deletes the flat node "
+                     "but keeps the container's entry, which then designates a node outside the flat container")
+
+    # (c) close(): the final save is preceded by a sweep of the dead referents of every flat container
+    cl = WS.methods.get("close")
+    if cl is None:
+        raise AnalysisError("anchor Workspace.close not found")
+    cv = ctx.view(cl)
+    gc_ = CFG(cv.node)
+    sac = _sa(cv.node)
+    xc = lambda e: unparse(_expanded(e, cv.node, sac))  # noqa: E731
+
+    def is_save(c):
+        """the final save of the tree: H5Writer.save_entity / save_entity applied to the root group"""
+        if not isinstance(c.func, ast.Attribute):
+            return False
+        if c.func.attr == "_io_call" and c.args and unparse(c.args[0]) == "H5Writer.save_entity":
+            return True
+        return c.func.attr == "save_entity" and any(xc(a) in ("self.root", "self._root") for a in c.args)
+
+    saves = [n for n in gc_.nodes if has_call(n, is_save)]
+    if not saves:  # no save recognised: the latest point is the closing of the file itself
+        saves = [n for n in gc_.nodes if has_call(n, lambda c: isinstance(c.func, ast.Attribute) and c.func.attr == "close" and xc(c.func.value) in ("self.geoh5", "self._geoh5"))]
+    if not saves:
+        raise AnalysisError("Workspace.close: neither the final save of the root nor the closing of the file was recognised")
+    from ..h5den import FLAT
+
+    def node_sweeps(n):
+        if n.ast is None or isinstance(n.ast, list):
+            return set()
+        if n.kind == "with":
+            return set().union(*[sweeps_ast(p, WS, it.context_expr, cv.node, None, ctx.view) for it in n.ast.items])
+        return sweeps_ast(p, WS, n.ast, cv.node, None, ctx.view)
+
+    swept_at = {n: node_sweeps(n) for n in gc_.nodes}
+    missing = []
+    for kind in sorted(FLAT):
+        before = reach(gc_, [gc_.entry], avoid=lambda n, kind=kind: kind in swept_at.get(n, ()))
+        ok = not any(s_ in before for s_ in saves)
+        res.inst(f"Workspace.close: dead {kind} referents are swept (remove_none_referents) before the final save", nontrivial=True, ok=ok)
+        if not ok:
+            missing.append(kind)
+    if missing:
+        res.find("Workspace", "close", f"dead referents of {missing} are not swept before the final save", cl.where,
+                 f"an entity of {' / '.join(missing)} that was detached from its parent (remove_children: 'becomes inactive') and dropped by the caller is only "
+                 "removed by the next listing call; close() makes none for these containers, so the node stays in the closed file without any parent")
+    return res
+
+
+RULES = [rule_spec, rule_link, rule_reparent, rule_pgmember, rule_orphan]
